@@ -2,13 +2,14 @@ SPECIFICATION Spec
 CONSTANTS
   Vers = {"sasl", "sasl2"}
   Mechs = {"PLAIN", "DIGEST-MD5", "ANONYMOUS", "X-UNKNOWN"}
-  Creds = {"right", "wrongPw", "ownEmpty", "otherUser", "victimEmpty", "unknownPw", "unknownEmpty", "embedEmpty", "embedBareEmpty", "embedSlashEmpty", "embedKnown", "malformed", "empty"}
+  Creds = {"right", "wrongPw", "ownEmpty", "otherUser", "victimEmpty", "victimOwnSecret", "unknownPw", "unknownEmpty", "embedEmpty", "embedBareEmpty", "embedSlashEmpty", "embedKnown", "malformed", "empty"}
   BindRes = {"ra", "rv"}
   Kinds = {"message", "presence", "iq"}
   Froms = {"absent", "own", "ownBare", "victim", "other", "ownOtherRes", "ownSibling", "ownCase", "ownSlash", "ownPrefix", "ownDomain", "ownLookalike"}
   Tos = {"victimBare", "victimFull", "domain", "absent"}
   Stanzas <- AllStanzas
   MaxPending = 2
+  MaxRetry = 0
   MaxHist = 99
 VIEW GenView
 ACTION_CONSTRAINT EmitBehaviour
